@@ -2,7 +2,8 @@
 import itertools
 from impl import trees, mk_leaf, mk_node
 
-LABELS = ["S", "VP", "NP", "PP", "AP", "CS", "AVP", "SBAR", "X", "NP-SBJ", "NP-SBJ-1", "VP=2", "CNP"]
+LABELS = ["S", "VP", "NP", "PP", "AP", "CS", "AVP", "SBAR", "X", "NP-SBJ", "NP-SBJ-1", "VP=2", "CNP",
+          "S-12", "NP-SBJ-10", "VP=23", "NP-LOC=11-3"]      # indices of more than one digit
 PLAIN_LABELS = ["S", "VP", "NP", "PP", "AP", "CS", "AVP", "SBAR", "X", "CNP", "VZ"]
 POS = ["NN", "VVFIN", "ART", "ADJA", "APPR", "ADV", "NE", "VAFIN", "KON", "PPER", "VVPP", "PRELS"]
 EDGES = ["HD", "NK", "SB", "OA", "MO", "--", "OC", "-", "CJ"]
